@@ -1,6 +1,7 @@
 package zzverif
 
 import (
+	"runtime"
 	"encoding/json"
 	"fmt"
 	"net/url"
@@ -202,7 +203,7 @@ func genMOps(rc *RunCtx, c MCfg) []Op {
 		case 9:
 			add(Op{Kind: "subclose", A: t, B: ch})
 		case 10:
-			add(Op{Kind: "second"})
+			add(Op{Kind: "second", A: int64(r.Intn(2))})
 		case 11:
 			if restarts < c.Cycles {
 				restarts++
@@ -540,7 +541,18 @@ func (w *mWorld) exec(op Op) {
 			w.push(n2)
 		}
 	case "second":
-		// a second nsqd on a data path that is in use must refuse to start
+		// a second nsqd on a data path that is in use must refuse to start - also after the first has been
+		// running for a while: a real process goes through garbage collections (the simulation switches the
+		// collector off during a run), which finalise whatever the daemon no longer references
+		if op.A%2 == 1 {
+			synctest.Wait()
+			runtime.GC()
+			for i := 0; i < 20; i++ {
+				runtime.Gosched()
+			}
+			runtime.GC()
+			rc.Probe("gc_cycles_forced")
+		}
 		n2, err := nsqd.New(w.options(w.rc.Dir, "127.0.0.1:0", "127.0.0.1:0"))
 		if err == nil {
 			n2.Exit()
